@@ -62,12 +62,14 @@ prop("C09", "RU (UTF-16 positions never mixed with code-point counts in any func
 prop("C12", "RE (constant index into possibly-empty wrapping), RD (no discarded result of a pure call), RG gates of the structure helpers", [lambda p, r: rsmall.rule_re(p, r, files=("prosemirror/transform/structure.py", "prosemirror/model/content.py", "prosemirror/model/from_dom.py")), rsmall.rule_rd, gates("C12")])
 prop("C14", "RT (lazy copies in Mark.add_to_set / NodeType.allowed_marks tested by identity), RM (mark group membership on split lists), RG gates of the mark-set algebra", [lambda p, r: rt.rule_rt(p, r), rsmall.rule_rm, gates("C14")], [rt.rule_rt_xref])
 prop("C18", "RK-spec (spec keys read are declared keys), RG gates (isolating barriers in the ancestor walkers)", [rk.rule_rk_spec, gates("C18")])
-prop("C19", "RL over from_dom/to_dom (no stuck loop path), RX (search sentinels), RA (escaping and str sinks), RT2, RG gates (mark activation)", [
+prop("C19", "RL over from_dom/to_dom (no stuck loop path), RX (search sentinels), RA (escaping and str sinks), RT2, RG gates (mark activation), RK-tags (every exported element name has a parse rule), RX-conv (DOM attribute conversions guarded)", [
     lambda p, r: rl.rule_rl(p, r, files=FROM_TO_DOM, min_loops=10),
     lambda p, r: rsmall.rule_rx(p, r),
     rsmall.rule_ra,
     rsmall.rule_rw,
     rk.rule_rk_bundled,
+    rk.rule_rk_tags,
+    rk.rule_rx_conv,
     rt.rule_rt2,
     gates("C19"),
 ])
